@@ -221,6 +221,15 @@ impl Executor {
                 // The shared pointer is kept valid until the Executor is dropped,
                 // to avoid use-after-free issues with concurrent wakers.
                 unsafe { task.drop() };
+                // A waker or `JoinHandle` on another thread may be in the middle
+                // of scheduling this task and hold a reference to `Shared`. Once
+                // the task has left the queue, `clear()` can no longer wait for
+                // it, so `Executor::drop` could free `Shared` under it. Wait here,
+                // like `clear()` does: `drop()` above has marked the task as
+                // cancelled and nulled its pointer, so whoever has not loaded the
+                // pointer yet returns early, and one waiting for room in a full
+                // queue bails out.
+                task.wait_for_scheduling();
                 queue.remove(id);
             } else {
                 queue.reset(id, task);
